@@ -12,23 +12,23 @@ E = {
 # id: (engine, level, text, note, technique)
 CHECKS = {
  "C05": ("E1", "exploration",
-   "token strings, payload/length strata 0..136, runs and truncations x 30 entry points x placements {ending at a page end followed by an unmapped page, starting at a page start preceded by one, followed by 8 adversarial continuations, 13/64 start alignments}: observation identical to a private exact-length heap copy; faults are caught (SetPanicOnFault) or attributed through the crash path",
+   "token strings, payload/length strata 0..136, runs, blank runs of every short length behind every token boundary, and truncations x 29 in-place entry points x placements {ending at a page end followed by an unmapped page, starting at a page start preceded by one, followed by 8 adversarial continuations, 13/64 start alignments}: observation identical to the same bytes followed by NUL bytes of the same allocation; faults are caught (SetPanicOnFault) or attributed through the crash path",
    "over-reads that stay inside a mapped page and do not change the result are unobservable (harmless by the property's wording); SSE covered by C13",
    "bounded-exhaustive enumeration of (input, memory placement) pairs with a differential oracle and guard pages"),
  "C06": ("E2", "model_checking",
-   "every history of <= 3/4 operations over ~30 instances (encode family on both sides of the pool limit, ast MarshalJSON/Raw, the caller overwriting every []byte it was given, decode followed by overwriting the input) with sync.Pool replaced by a deterministic maximal-reuse pool: every earlier result keeps its snapshot, outputs equal their fresh-state outputs; EncodeInto x every capacity 0..40 x fills x options with canaries",
+   "every history of <= 3/4 operations over ~30 instances (encode family on both sides of the pool limit, ast MarshalJSON/Raw, the caller overwriting every []byte it was given, decode followed by overwriting the input) with sync.Pool replaced by a deterministic maximal-reuse pool: every earlier result keeps its snapshot, outputs equal their fresh-state outputs; EncodeInto x {10 values, every (type, value) case of the encoder grammar} x EVERY capacity up to 8 bytes more than needed x prefixes x options with canaries",
    "the deterministic pool is the maximal-reuse schedule; strings are immutable for the caller",
    "explicit-state search over operation histories with an invariant checked after every transition + exhaustive capacity sweep"),
  "C07": ("E1", "exploration",
-   "token strings and single-byte corruptions/truncations of small documents through 27 entry points; nesting-depth grid up to 10^6 (4*10^6 thorough) x shapes x closed/unclosed; cyclic / 100000-deep / unsupported encoder inputs; error objects for ALL (Pos, len) in [-40,len+40] x [0,80]; in crash-isolated workers (death attributed to the announced case, confirmed 5x)",
+   "token strings and single-byte corruptions/truncations of small documents through 27 entry points; nesting-depth grid up to 10^6 (4*10^6 thorough) x shapes x closed/unclosed, 15 innermost leaf kinds at the depth limit +-1; cyclic / 100000-deep / unsupported encoder inputs; error objects for ALL (Pos, len) in [-40,len+40] x [0,80]; in crash-isolated workers (death attributed to the announced case, confirmed 5x)",
    "a 10-minute watchdog stands in for 'hang'; the one-byte-per-Read stream grid stops at depth 65536 (quadratic re-scan, not a hang)",
    "bounded-exhaustive input enumeration in crash-isolated processes; oracle = survival + usable error values"),
  "C08": ("E3", "model_checking",
    "12 scenarios of 2-3 concurrent calls (first use through one or two caches, Pretouch vs use, iterator / stack / state-machine pools, the real ProgramCache with fabricated colliding keys around a rehash) explored for every interleaving with <= 1-3 preemptions at every lock/atomic/pool operation and every statement of the cache, pool and module-registration code; results (incl. what a traceback inside the callback sees) must match a sequential order; -race companion pass",
-   "shimmed sync/atomic/Pool semantics; compilation is thread-local and not instrumented; the assembler's instruction pool is left real",
+   "shimmed sync/atomic/Pool semantics; compilation is thread-local and not instrumented except for scheduling points around assemble/resolve/release (its instruction pool is deterministic without points of its own)",
    "stateless model checking of the implementation under a controlled scheduler with iterative preemption bounding"),
  "C10": ("E4", "fault_enumeration",
-   "25 codec programs x EVERY dynamic opcode boundary (sonic's own debug seam re-pointed to the harness) x {GC, stack copy, stack copy + shrink, traceback, Gosched+GC}, one event per run, the event at every boundary, the event inside every user callback, and (thorough) all pairs of boundaries for small programs; background GC off, clobberfree=1; result must equal the undisturbed run and the process must survive",
+   "25 codec programs x EVERY dynamic opcode boundary (sonic's own debug seam re-pointed to the harness) x {GC, stack copy, stack copy + shrink, traceback, Gosched+GC}, one event per run, the event at every boundary, the event inside every user callback (on entry and after its last use of the receiver), and (thorough) all pairs of boundaries for small programs; background GC off, clobberfree=1; result must equal the undisturbed run and the process must survive",
    "boundaries in front of a `save` opcode are not runtime intervention points (no call-out there in production; sonic's own seam skips them); events inside runtime helpers mid-opcode cannot be positioned",
    "exhaustive enumeration of (execution point, runtime event) injections into one execution"),
  "C01": ("E1", "exploration",
@@ -40,7 +40,7 @@ CHECKS = {
    "64-bit digests (collision probability ~1e-12 per run); errors compared as a class",
    "exhaustive enumeration of a bounded input x type x option space replayed per start-up configuration, differential oracle"),
  "C12": ("E5", "exploration",
-   "the C04 suite (boundary values of ~250 types x all 512 encoder option sets, cyclic/deep values) and the C03 suite enumerated under the JIT back end and under SONIC_ENCODER_USE_VM=1: byte-identical output or both errors",
+   "the C04 suite (boundary values of ~250 types x all 512 encoder option sets, cyclic/deep values) (long strings also through a fresh 16-byte buffer) and the C03 suite enumerated under the JIT back end and under SONIC_ENCODER_USE_VM=1: byte-identical output or both errors",
    "64-bit digests; outputs of maps without SortMapKeys compared as byte multisets (Go map order is random)",
    "exhaustive enumeration of a bounded value x option space replayed per start-up configuration, differential oracle"),
  "C13": ("E5", "exploration",
@@ -64,7 +64,7 @@ CHECKS = {
    "trusts encoding/json.Valid and a 30-line string-masking scanner; runs the shipped pre-assembled native routines (AVX2 here, SSE through C13)",
    "bounded-exhaustive input enumeration with a two-sided reference oracle"),
  "C03": ("E1", "exploration",
-   "every type of a reflect-built type grammar (depth 2 quick / 3 thorough) x every value of a boundary value set, by value and through a pointer: ConfigStd.Marshal vs encoding/json.Marshal (errors coincide, token streams equal, numbers byte-identical, strings by denotation)",
+   "every type of a reflect-built type grammar (depth 2 quick / 3 thorough) x every value of a boundary value set, by value and through a pointer: ConfigStd.Marshal vs encoding/json.Marshal (errors coincide, token streams equal, numbers byte-identical, strings by denotation); component: the real map-key sorter driven with chosen input orders (6 key families x prefix 0..24 x 0..48 keys x all permutations <= 7/9 keys and structured orders above)",
    "encoding/json is the reference; comparison tokenizer is encoding/json's Decoder.Token",
    "bounded-exhaustive enumeration of (program=type, input=value) pairs against a reference implementation"),
  "C04": ("E1", "exploration",
@@ -72,11 +72,11 @@ CHECKS = {
    "encoding/json decides representability; round trip asserted only for types that are plain data by construction",
    "exhaustive enumeration of the option-set space crossed with a bounded value space"),
  "C09": ("E2", "model_checking",
-   "every history of <= 2 (quick) / 3 (thorough) arbitrary operations followed by an observing one over ~55 operation instances on 7 colliding types, replayed on the real code from reset caches, differential against the empty history; the real ProgramCache driven with fabricated keys over every insertion order of a colliding alphabet at each rehash boundary and 9000 sequential insertions; 2200/4400 distinct types end to end",
+   "every history of <= 2 (quick) / 3 (thorough) arbitrary operations followed by an observing one over ~60 operation instances on 8 colliding types, by iterative deepening on the prefix length,, replayed on the real code from reset caches, differential against the empty history; the real ProgramCache driven with fabricated keys over every insertion order of a colliding alphabet at each rehash boundary and 9000 sequential insertions; 2200/4400 distinct types end to end",
    "loaded machine code cannot be unloaded, so the loader's module list is the one piece of history a reset does not erase",
    "explicit-state search over operation histories on the real implementation with a differential oracle"),
  "C15": ("E2", "model_checking",
-   "breadth-first search over all operation histories up to depth 3 (quick) / 4 (thorough) over ~120 operation instances x 10 initial documents on the real ast.Node, states merged on (model state, hidden representation dump), every result and every state's full read-out compared with a 150-line ordered-tree model",
+   "breadth-first search over all operation histories up to depth 3 (quick) / 4 (thorough) over ~120 operation instances x 10 initial documents on the real ast.Node, states merged on (model state, hidden representation dump), every result and every state's full read-out compared with a 150-line ordered-tree model; sort sweep: SortKeys on 0..48-pair objects in every document order <= 6/8 keys and structured orders above x 5 variants against a stable sort of the live pairs",
    "the model encodes the documented semantics; undocumented corners (Move out of range, SortKeys on non-objects) are pruned, not guessed",
    "explicit-state search over operation histories against a reference model, with state hashing on hidden representation"),
  "C16": ("E3", "model_checking",
